@@ -1,7 +1,7 @@
 //! C14 — header-type, message-info and type-info codes decode and re-encode consistently.
 //!
 //! Case index space:
-//!   0                : all 256 HTYP bytes x 3 payload variants, through dlt_message
+//!   0                : all 256 HTYP bytes x 4 payload variants, through dlt_message
 //!   1                : all 256 MSIN bytes, MessageType::try_from / u8::from and through dlt_message
 //!   2 .. 2+W         : type-info words in blocks of 2^16; thorough: W = 65536 blocks = all 2^32 words;
 //!                      quick: all 2^18 low words x 16 patterns of the ignored high bits (64 blocks)
@@ -96,18 +96,34 @@ fn check_word(ctx: &mut Ctx, w: u32, accepted: &mut u64) {
 }
 
 /// an argument carrying the word `w` (bool / u8 / string ... whatever the word names) through the parser
-fn check_word_through_parser(ctx: &mut Ctx, w: u32, be: bool) {
+fn check_word_through_parser(ctx: &mut Ctx, w: u32, be: bool, msin: u8) {
     let exp = tyinfo_of(w);
     // a value area large enough for any kind: zeros parse as empty names, lengths 0, values 0
     let mut payload = if be { w.to_be_bytes().to_vec() } else { w.to_le_bytes().to_vec() };
     payload.extend(std::iter::repeat(0u8).take(40));
     let htyp = 0x21 | if be { 2 } else { 0 };
     let total = 4 + 10 + payload.len();
-    let mut b = vec![htyp, 0, (total >> 8) as u8, total as u8, 0x41, 1, b'A', 0, 0, 0, b'C', 0, 0, 0];
+    let mut b = vec![htyp, 0, (total >> 8) as u8, total as u8, msin, 1, b'A', 0, 0, 0, b'C', 0, 0, 0];
     b.extend_from_slice(&payload);
     ctx.eval();
     let res = guarded(|| dlt_message(&b, None, false).map(|(_, pm)| pm));
-    let detail = |got: String| J::obj().set("word", format!("{:#010x}", w)).set("big_endian", be).set("message_hex", hex(&b)).set("got", got);
+    let detail = |got: String| J::obj().set("word", format!("{:#010x}", w)).set("big_endian", be).set("msin", format!("{:#04x}", msin)).set("message_hex", hex(&b)).set("got", got);
+    let network_trace = (msin >> 1) & 7 == 2;
+    if network_trace {
+        // the crate represents network-trace arguments as raw slices; demanded here: no panic,
+        // and a word that names no supported kind is refused exactly as in any other message
+        match (exp, res) {
+            (_, Err(p)) => ctx.panic_violation("typeinfo.parser_no_panic", &p, || detail("panic".into())),
+            (None, Ok(Ok(ParsedMessage::Item(m)))) => ctx.violation("typeinfo.parser_accepted_unsupported", "word:networktrace", || detail(format!("{:?}", m.payload))),
+            (None, Ok(_)) => ctx.obs("typeinfo.parser_refuses_ok"),
+            (Some(d), Ok(Ok(ParsedMessage::Item(_)))) => {
+                let _ = d;
+                ctx.obs("typeinfo.parser_accepts_ok")
+            }
+            (Some(d), Ok(other)) => ctx.violation("typeinfo.parser_refused_supported", &format!("{}:networktrace", refcodec::kind_name(&d.kind)), || detail(format!("{:?}", other))),
+        }
+        return;
+    }
     match (exp, res) {
         (_, Err(p)) => ctx.panic_violation("typeinfo.parser_no_panic", &p, || detail("panic".into())),
         (Some(d), Ok(Ok(ParsedMessage::Item(m)))) => match &m.payload {
@@ -122,16 +138,19 @@ fn check_word_through_parser(ctx: &mut Ctx, w: u32, be: bool) {
 
 fn check_htyp(ctx: &mut Ctx) {
     for b in 0..=255u8 {
-        for variant in 0..3u8 {
+        for variant in 0..4u8 {
             let ueh = b & 1 != 0;
             let hl = headers_len(b);
             let payload: Vec<u8> = match variant {
                 0 => vec![9, 0, 0, 0],
                 1 => vec![1, 2, 3, 4, 5, 6, 7],
-                _ => vec![0xff; 4],
+                2 => vec![0xff; 4],
+                // counter 0x4C and length 0x5401: for HTYP 0x44 the header reads "DLT\x01"
+                _ => vec![0x33; 0x5401 - hl],
             };
             let total = hl + payload.len();
-            let mut m = vec![b, 0x5a, (total >> 8) as u8, total as u8];
+            let mcnt = if variant == 3 { 0x4c } else { 0x5a };
+            let mut m = vec![b, mcnt, (total >> 8) as u8, total as u8];
             if b & 4 != 0 {
                 m.extend_from_slice(b"ECU\0");
             }
@@ -163,7 +182,7 @@ fn check_htyp(ctx: &mut Ctx) {
                         && h.session_id.map_or(true, |s| s == 0x01020304)
                         && h.timestamp.map_or(true, |s| s == 0x0a0b0c0d)
                         && h.ecu_id.as_deref().map_or(true, |s| s == "ECU")
-                        && h.message_counter == 0x5a
+                        && h.message_counter == mcnt
                         && msg.extended_header.is_some() == ueh;
                     if !ok {
                         ctx.violation("htyp.decodes_per_layout", &format!("{:#04x}", b), || detail(format!("{:?}", h)));
@@ -267,9 +286,18 @@ impl Monitor for M {
                     let low18 = (lo_base + lo) as u32;
                     let w = (pat << 16) | (low18 & 0x3FFFF);
                     check_word(ctx, w, &mut accepted);
+                    if i < 4 {
+                        // byte-order confusions and shifted copies of every 18-bit word: a decoder
+                        // must not "repair" a word that names no kind in its low half
+                        let mut dummy = 0u64;
+                        check_word(ctx, w.swap_bytes(), &mut dummy);
+                        check_word(ctx, w.rotate_left(16), &mut dummy);
+                        check_word(ctx, w << 8, &mut dummy);
+                        check_word(ctx, w << 14, &mut dummy);
+                    }
                 }
             }
-            ctx.evals(n);
+            ctx.evals(if i < 4 && !(ctx.tier == Tier::Thorough && !light) { n * 5 } else { n });
         } else {
             ctx.obs("chunks.typeinfo_random_blocks");
             let n = if light { 512 } else { RANDOM_BLOCK };
@@ -281,9 +309,24 @@ impl Monitor for M {
                     let kind = 1u32 << ctx.rng.range(4, 10);
                     w = (w & !0x7F0) | kind;
                 }
+                if k % 8 == 3 {
+                    // the other byte order's image of a word naming one kind
+                    w = w.swap_bytes();
+                }
                 check_word(ctx, w, &mut accepted);
-                if k % 16 == 0 {
-                    check_word_through_parser(ctx, w, k % 32 == 0);
+                if k % 16 == 0 || k % 16 == 3 {
+                    check_word_through_parser(ctx, w, k % 32 < 16, 0x41);
+                    // the same argument inside a network-trace message (MSTP 2)
+                    check_word_through_parser(ctx, w, k % 32 < 16, 0x15);
+                }
+                if k % 512 == 7 {
+                    // the raw-data word and its byte-order images, in both message byte orders and types
+                    for x in [0x0000_0400u32, 0x0004_0000, 0x0000_0004, 0x0400_0000, 0x0000_0200, 0x0002_0000, 0x0000_0010, 0x1000_0000] {
+                        for be in [false, true] {
+                            check_word_through_parser(ctx, x, be, 0x41);
+                            check_word_through_parser(ctx, x, be, 0x15);
+                        }
+                    }
                 }
             }
             ctx.evals(n);
@@ -303,17 +346,17 @@ impl Monitor for M {
         let thorough = ctx.tier == Tier::Thorough && !light;
         super::describe(
             if thorough {
-                "exhaustive: all 256 HTYP bytes x 3 payload variants through dlt_message/header_type_byte/as_bytes; all 256 MSIN bytes through MessageType::try_from, u8::from, dlt_message and ExtendedHeader::as_bytes; ALL 2^32 type-info words through TypeInfo::try_from / as_bytes in both byte orders (65536 blocks of 65536), plus random words through the argument parser in both byte orders. distinct = accepted words with the format-ignored bits masked out (plus 768 HTYP and 256 MSIN cases); every accepted word is non-trivial"
+                "exhaustive: all 256 HTYP bytes x 4 payload variants (one with counter 0x4C / length 0x5401) through dlt_message/header_type_byte/as_bytes; all 256 MSIN bytes through MessageType::try_from, u8::from, dlt_message and ExtendedHeader::as_bytes; ALL 2^32 type-info words through TypeInfo::try_from / as_bytes in both byte orders (65536 blocks of 65536), plus random words through the argument parser in both byte orders. distinct = accepted words with the format-ignored bits masked out (plus 1024 HTYP and 256 MSIN cases); every accepted word is non-trivial"
             } else {
-                "all 256 HTYP bytes x 3 payload variants; all 256 MSIN bytes; type-info words: all 2^18 values of bits 0-17 under 16 patterns of the reserved bits 18-31 (64 blocks of 65536), then blocks of 8192 random words (half of them forced to name exactly one kind), every 16th random word also through the argument parser in both byte orders. distinct = accepted words with the format-ignored bits masked out (plus 768 HTYP and 256 MSIN cases)"
+                "all 256 HTYP bytes x 4 payload variants (one with counter 0x4C / length 0x5401, so that HTYP 0x44 yields a header reading 'DLT\\x01'); all 256 MSIN bytes; type-info words: all 2^18 values of bits 0-17 under 16 patterns of the reserved bits 18-31 (64 blocks of 65536), for the first pattern also the byte-swapped / rotated / shifted images of every word, then blocks of 8192 random words (half of them forced to name exactly one kind), every 8th random word also through the argument parser in both byte orders, inside a log message and inside a network-trace message, plus the raw/string/bool words and their byte-order images. distinct = accepted words with the format-ignored bits masked out (plus 1024 HTYP and 256 MSIN cases)"
             },
             &[
                 "acceptance rule: bits 4-10 name exactly one of bool/sint/uint/float/string/raw; sint/uint TYLE 1-5 (3-4 with FIXP); float TYLE 3-4; no width constraint for bool/string/raw",
                 "minimal used masks per kind: kind bits 4-10 and VARI always; TYLE for numeric kinds; FIXP for sint/uint; SCOD for string",
             ],
-            &[("htyp.ok", 768), ("msin.ok", 256), ("msin.parser_ok", 256), ("typeinfo.accepted_words", 10000)],
+            &[("htyp.ok", 1024), ("msin.ok", 256), ("msin.parser_ok", 256), ("typeinfo.accepted_words", 10000)],
         )
         .set("fixed_chunks", 2 + word_blocks(ctx.tier, light))
-        .set("exhaustive_space", if thorough { "2^8 HTYP x 3, 2^8 MSIN, 2^32 type-info words" } else { "2^8 HTYP x 3, 2^8 MSIN, 2^18 low type-info bits x 16 high-bit patterns" })
+        .set("exhaustive_space", if thorough { "2^8 HTYP x 4, 2^8 MSIN, 2^32 type-info words" } else { "2^8 HTYP x 4, 2^8 MSIN, 2^18 low type-info bits x 16 high-bit patterns" })
     }
 }
